@@ -137,6 +137,38 @@ def r_is_consistent_witness(ctx, rid):
            'is_consistent has exactly the four path classes (exhausted/mismatch/skip/match); found ok=%d err=%d skip=%d pass=%d' % (n_ok, n_err, n_skip, n_pass), fn.where())
 
 
+def r_witness_node_typing(ctx, rid):
+    """The type of a populated witness node is imposed by its value (the fresh inference context does not know the declared types)."""
+    ctx.rule(rid, 'to_witness_node: for every witness node that receives a value, the node\'s target type is unified with StructuralType::from(value.ty()) in the fresh inference context (otherwise a never-inspected witness re-infers smaller than its value and the Bit Machine panics)')
+    fx = ctx.facts()
+    fns = fx.find(r'^<named::to_witness_node::Populator as .*>::convert_data$')
+    ctx.floor(rid, 'Populator::convert_data', len(fns), 1)
+    for fn in fns:
+        seen = {'Some': False, 'None': False}
+        for kind, p, ret in explore(ctx, fn, follow_break=True):
+            if kind != 'RET':
+                continue
+            labs = [l for w, l in p.conds]
+            if 'Witness' not in labs:
+                continue
+            has = [l for w, l in p.conds if is_call(w, 'witness::WitnessValues::get')]
+            un = [e for e in event_calls(p, 'unify') if 'Context' in e[1]]
+            if has and has[0] == 'Some':
+                ok = len(un) == 1
+                if ok:
+                    e = un[0]
+                    tgt, ty = e[2][1], e[2][2]
+                    g = [w for w, l in p.conds if is_call(w, 'witness::WitnessValues::get')][0]
+                    ok = ('target' in sv(tgt) and bool(calls_in(tgt, 'from_inner')) and is_call(ty, 'types::StructuralType::to_unfinalized')
+                          and bool(calls_in(ty, 'value::Value::ty')) and contains(ty, g) and field_of_param(g[2][0], 'self', 'values'))
+                seen['Some'] = True
+                ctx.ob(rid, 'populated-node:typed-by-value', ok, 'a populated witness node is unified with the structural type of the value looked up under its own name', fn.where(), sv(un[0][2][2]) if un else 'no unify on this path')
+            elif has:
+                seen['None'] = True
+                ctx.ob(rid, 'empty-node:untouched', not un, 'a witness node without value is left to inference', fn.where())
+        ctx.ob(rid, 'witness-arm-present', seen['Some'], 'the Witness arm with an assigned value was found', fn.where())
+
+
 def r_finalizers(ctx, rid, check_pruned_values=False):
     """Which finalizer runs on which arm, with which environment; result propagated."""
     ctx.rule(rid, 'satisfy_with_env: Some(env) => finalize_pruned(node, that env); None => finalize_unpruned(node); the finalizer Result reaches the return through `?`; node = to_witness_node(..)')
@@ -172,7 +204,7 @@ def r_finalizers(ctx, rid, check_pruned_values=False):
         ctx.ob(rid, 'arm:%s:result-propagated' % arm, lab == 'Continue' and prog_ok, 'the finalizer result is unwrapped with `?` and becomes the returned program', where, sv(ret))
         if check_pruned_values:
             ctx.ob('R02.1', 'satisfy_with_env/env=%s/%s' % (arm, name), name == 'finalize_pruned',
-                   'redeem node is finalized by a finalizer that prunes witness values to the re-inferred types '
-                   '(finalize_unpruned keeps full-width values of witnesses whose type re-infers smaller: encoding not decodable)', where)
+                   'the encoding handed out is decodable on its own: the decoder re-infers witness types from the program alone, so the values '
+                   'must be pruned to those minimal types (finalize_pruned does, finalize_unpruned does not: trailing bytes for a never-inspected witness)', where)
     for arm, n in seen.items():
         ctx.ob(rid, 'arm:%s:present' % arm, n == 1, 'exactly one success path for env=%s (found %d)' % (arm, n), fn.where())
